@@ -198,59 +198,26 @@ def BlockInfo (sp : Bool) (cell_slice : Frag) : Rd.R := do
     let (t22, cell_slice) ← Rd.loadUint 32 cell_slice
     let (t23, cell_slice) ← Rd.loadUint 32 cell_slice
     let b24 ← Rd.lowBit t11
-    if b24 then do
-      let (t25, cell_slice) ← GlobalVersion sp cell_slice
-      if (Rd.truthy t3) then do
-        let (c26, cell_slice) ← Rd.loadRef cell_slice
-        let r27 := Rd.beginParse c26
-        let (t28, _) ← BlkMasterInfo (Rd.special c26) r27
-        let (c29, cell_slice) ← Rd.loadRef cell_slice
-        let r30 := Rd.beginParse c29
-        let (t31, _) ← BlkPrevInfo (Rd.special c29) r30 t4
-        if (Rd.truthy t10) then do
-          let (c32, cell_slice) ← Rd.loadRef cell_slice
-          let r33 := Rd.beginParse c32
-          let (t34, _) ← BlkPrevInfo (Rd.special c32) r33 (Val.int 0)
-          pure ((Rd.obj "BlockInfo" [("version", t2), ("not_master", t3), ("after_merge", t4), ("before_split", t5), ("after_split", t6), ("want_split", t7), ("want_merge", t8), ("key_block", t9), ("vert_seqno_incr", t10), ("flags", t11), ("seqno", t13), ("vert_seqno", t14), ("shard", t16), ("gen_utime", t17), ("start_lt", t18), ("end_lt", t19), ("gen_validator_list_hash_short", t20), ("gen_catchain_seqno", t21), ("min_ref_mc_seqno", t22), ("prev_key_block_seqno", t23), ("gen_software", t25), ("master_ref", t28), ("prev_ref", t31), ("prev_vert_ref", t34)]), cell_slice)
-        else do
-          pure ((Rd.obj "BlockInfo" [("version", t2), ("not_master", t3), ("after_merge", t4), ("before_split", t5), ("after_split", t6), ("want_split", t7), ("want_merge", t8), ("key_block", t9), ("vert_seqno_incr", t10), ("flags", t11), ("seqno", t13), ("vert_seqno", t14), ("shard", t16), ("gen_utime", t17), ("start_lt", t18), ("end_lt", t19), ("gen_validator_list_hash_short", t20), ("gen_catchain_seqno", t21), ("min_ref_mc_seqno", t22), ("prev_key_block_seqno", t23), ("gen_software", t25), ("master_ref", t28), ("prev_ref", t31), ("prev_vert_ref", Val.unit)]), cell_slice)
-      else do
-        let (c35, cell_slice) ← Rd.loadRef cell_slice
-        let r36 := Rd.beginParse c35
-        let (t37, _) ← BlkPrevInfo (Rd.special c35) r36 t4
-        if (Rd.truthy t10) then do
-          let (c38, cell_slice) ← Rd.loadRef cell_slice
-          let r39 := Rd.beginParse c38
-          let (t40, _) ← BlkPrevInfo (Rd.special c38) r39 (Val.int 0)
-          pure ((Rd.obj "BlockInfo" [("version", t2), ("not_master", t3), ("after_merge", t4), ("before_split", t5), ("after_split", t6), ("want_split", t7), ("want_merge", t8), ("key_block", t9), ("vert_seqno_incr", t10), ("flags", t11), ("seqno", t13), ("vert_seqno", t14), ("shard", t16), ("gen_utime", t17), ("start_lt", t18), ("end_lt", t19), ("gen_validator_list_hash_short", t20), ("gen_catchain_seqno", t21), ("min_ref_mc_seqno", t22), ("prev_key_block_seqno", t23), ("gen_software", t25), ("master_ref", Val.unit), ("prev_ref", t37), ("prev_vert_ref", t40)]), cell_slice)
-        else do
-          pure ((Rd.obj "BlockInfo" [("version", t2), ("not_master", t3), ("after_merge", t4), ("before_split", t5), ("after_split", t6), ("want_split", t7), ("want_merge", t8), ("key_block", t9), ("vert_seqno_incr", t10), ("flags", t11), ("seqno", t13), ("vert_seqno", t14), ("shard", t16), ("gen_utime", t17), ("start_lt", t18), ("end_lt", t19), ("gen_validator_list_hash_short", t20), ("gen_catchain_seqno", t21), ("min_ref_mc_seqno", t22), ("prev_key_block_seqno", t23), ("gen_software", t25), ("master_ref", Val.unit), ("prev_ref", t37), ("prev_vert_ref", Val.unit)]), cell_slice)
-    else do
-      if (Rd.truthy t3) then do
-        let (c41, cell_slice) ← Rd.loadRef cell_slice
-        let r42 := Rd.beginParse c41
-        let (t43, _) ← BlkMasterInfo (Rd.special c41) r42
-        let (c44, cell_slice) ← Rd.loadRef cell_slice
-        let r45 := Rd.beginParse c44
-        let (t46, _) ← BlkPrevInfo (Rd.special c44) r45 t4
-        if (Rd.truthy t10) then do
-          let (c47, cell_slice) ← Rd.loadRef cell_slice
-          let r48 := Rd.beginParse c47
-          let (t49, _) ← BlkPrevInfo (Rd.special c47) r48 (Val.int 0)
-          pure ((Rd.obj "BlockInfo" [("version", t2), ("not_master", t3), ("after_merge", t4), ("before_split", t5), ("after_split", t6), ("want_split", t7), ("want_merge", t8), ("key_block", t9), ("vert_seqno_incr", t10), ("flags", t11), ("seqno", t13), ("vert_seqno", t14), ("shard", t16), ("gen_utime", t17), ("start_lt", t18), ("end_lt", t19), ("gen_validator_list_hash_short", t20), ("gen_catchain_seqno", t21), ("min_ref_mc_seqno", t22), ("prev_key_block_seqno", t23), ("gen_software", Val.unit), ("master_ref", t43), ("prev_ref", t46), ("prev_vert_ref", t49)]), cell_slice)
-        else do
-          pure ((Rd.obj "BlockInfo" [("version", t2), ("not_master", t3), ("after_merge", t4), ("before_split", t5), ("after_split", t6), ("want_split", t7), ("want_merge", t8), ("key_block", t9), ("vert_seqno_incr", t10), ("flags", t11), ("seqno", t13), ("vert_seqno", t14), ("shard", t16), ("gen_utime", t17), ("start_lt", t18), ("end_lt", t19), ("gen_validator_list_hash_short", t20), ("gen_catchain_seqno", t21), ("min_ref_mc_seqno", t22), ("prev_key_block_seqno", t23), ("gen_software", Val.unit), ("master_ref", t43), ("prev_ref", t46), ("prev_vert_ref", Val.unit)]), cell_slice)
-      else do
-        let (c50, cell_slice) ← Rd.loadRef cell_slice
-        let r51 := Rd.beginParse c50
-        let (t52, _) ← BlkPrevInfo (Rd.special c50) r51 t4
-        if (Rd.truthy t10) then do
-          let (c53, cell_slice) ← Rd.loadRef cell_slice
-          let r54 := Rd.beginParse c53
-          let (t55, _) ← BlkPrevInfo (Rd.special c53) r54 (Val.int 0)
-          pure ((Rd.obj "BlockInfo" [("version", t2), ("not_master", t3), ("after_merge", t4), ("before_split", t5), ("after_split", t6), ("want_split", t7), ("want_merge", t8), ("key_block", t9), ("vert_seqno_incr", t10), ("flags", t11), ("seqno", t13), ("vert_seqno", t14), ("shard", t16), ("gen_utime", t17), ("start_lt", t18), ("end_lt", t19), ("gen_validator_list_hash_short", t20), ("gen_catchain_seqno", t21), ("min_ref_mc_seqno", t22), ("prev_key_block_seqno", t23), ("gen_software", Val.unit), ("master_ref", Val.unit), ("prev_ref", t52), ("prev_vert_ref", t55)]), cell_slice)
-        else do
-          pure ((Rd.obj "BlockInfo" [("version", t2), ("not_master", t3), ("after_merge", t4), ("before_split", t5), ("after_split", t6), ("want_split", t7), ("want_merge", t8), ("key_block", t9), ("vert_seqno_incr", t10), ("flags", t11), ("seqno", t13), ("vert_seqno", t14), ("shard", t16), ("gen_utime", t17), ("start_lt", t18), ("end_lt", t19), ("gen_validator_list_hash_short", t20), ("gen_catchain_seqno", t21), ("min_ref_mc_seqno", t22), ("prev_key_block_seqno", t23), ("gen_software", Val.unit), ("master_ref", Val.unit), ("prev_ref", t52), ("prev_vert_ref", Val.unit)]), cell_slice)
+    let (t26, cell_slice) ← (if b24 then do
+          let (t25, cell_slice) ← GlobalVersion sp cell_slice
+          pure (t25, cell_slice)
+        else pure (Val.unit, cell_slice))
+    let (t30, cell_slice) ← (if (Rd.truthy t3) then do
+          let (c27, cell_slice) ← Rd.loadRef cell_slice
+          let r28 := Rd.beginParse c27
+          let (t29, _) ← BlkMasterInfo (Rd.special c27) r28
+          pure (t29, cell_slice)
+        else pure (Val.unit, cell_slice))
+    let (c31, cell_slice) ← Rd.loadRef cell_slice
+    let r32 := Rd.beginParse c31
+    let (t33, _) ← BlkPrevInfo (Rd.special c31) r32 t4
+    let (t37, cell_slice) ← (if (Rd.truthy t10) then do
+          let (c34, cell_slice) ← Rd.loadRef cell_slice
+          let r35 := Rd.beginParse c34
+          let (t36, _) ← BlkPrevInfo (Rd.special c34) r35 (Val.int 0)
+          pure (t36, cell_slice)
+        else pure (Val.unit, cell_slice))
+    pure ((Rd.obj "BlockInfo" [("version", t2), ("not_master", t3), ("after_merge", t4), ("before_split", t5), ("after_split", t6), ("want_split", t7), ("want_merge", t8), ("key_block", t9), ("vert_seqno_incr", t10), ("flags", t11), ("seqno", t13), ("vert_seqno", t14), ("shard", t16), ("gen_utime", t17), ("start_lt", t18), ("end_lt", t19), ("gen_validator_list_hash_short", t20), ("gen_catchain_seqno", t21), ("min_ref_mc_seqno", t22), ("prev_key_block_seqno", t23), ("gen_software", t26), ("master_ref", t30), ("prev_ref", t33), ("prev_vert_ref", t37)]), cell_slice)
 -- END BlockInfo
 
 -- BEGIN KeyExtBlkRef
@@ -390,37 +357,6 @@ def TrComputePhase (sp : Bool) (cell_slice : Frag) : Rd.R := do
     pure ((Rd.obj "TrComputePhase" [("type_", (Rd.str "vm")), ("reason", Val.unit), ("success", t3), ("msg_state_used", t4), ("account_activated", t5), ("gas_fees", t6), ("gas_used", t9), ("gas_limit", t10), ("gas_credit", t12), ("mode", t14), ("exit_code", t15), ("exit_arg", t17), ("vm_steps", t19), ("vm_init_state_hash", t20), ("vm_final_state_hash", t21)]), cell_slice)
 -- END TrComputePhase
 
--- BEGIN TrActionPhase
-def TrActionPhase (sp : Bool) (cell_slice : Frag) : Rd.R := do
-  let (t1, cell_slice) ← Rd.loadBool cell_slice
-  let (t2, cell_slice) ← Rd.loadBool cell_slice
-  let (t3, cell_slice) ← Rd.loadBool cell_slice
-  let (t4, cell_slice) ← AccStatusChange sp cell_slice
-  let (t5, cell_slice) ← Rd.loadBit cell_slice
-  let (t6, cell_slice) ← (if (Rd.truthy t5) then do
-        let (t7, cell_slice) ← Rd.loadCoins cell_slice
-        pure (t7, cell_slice)
-      else pure (Val.unit, cell_slice))
-  let (t8, cell_slice) ← Rd.loadBit cell_slice
-  let (t9, cell_slice) ← (if (Rd.truthy t8) then do
-        let (t10, cell_slice) ← Rd.loadCoins cell_slice
-        pure (t10, cell_slice)
-      else pure (Val.unit, cell_slice))
-  let (t11, cell_slice) ← Rd.loadInt 32 cell_slice
-  let (t12, cell_slice) ← Rd.loadBit cell_slice
-  let (t13, cell_slice) ← (if (Rd.truthy t12) then do
-        let (t14, cell_slice) ← Rd.loadInt 32 cell_slice
-        pure (t14, cell_slice)
-      else pure (Val.unit, cell_slice))
-  let (t15, cell_slice) ← Rd.loadUint 16 cell_slice
-  let (t16, cell_slice) ← Rd.loadUint 16 cell_slice
-  let (t17, cell_slice) ← Rd.loadUint 16 cell_slice
-  let (t18, cell_slice) ← Rd.loadUint 16 cell_slice
-  let (t19, cell_slice) ← Rd.loadBytes 32 cell_slice
-  let (t20, cell_slice) ← StorageUsedShort sp cell_slice
-  pure ((Rd.obj "TrActionPhase" [("success", t1), ("valid", t2), ("no_funds", t3), ("status_change", t4), ("total_fwd_fees", t6), ("total_action_fees", t9), ("result_code", t11), ("result_arg", t13), ("tot_actions", t15), ("spec_actions", t16), ("skipped_actions", t17), ("msgs_created", t18), ("action_list_hash", t19), ("tot_msg_size", t20)]), cell_slice)
--- END TrActionPhase
-
 -- BEGIN TrBouncePhase
 def TrBouncePhase (sp : Bool) (cell_slice : Frag) : Rd.R := do
   let (t1, cell_slice) ← Rd.loadBit cell_slice
@@ -466,58 +402,6 @@ def IntermediateAddress (sp : Bool) (cell_slice : Frag) : Rd.R := do
       pure ((Rd.obj "IntermediateAddress" [("type_", (Rd.str "interm_addr_ext")), ("workchain_id", t6), ("addr_pfx", t7)]), cell_slice)
 -- END IntermediateAddress
 
--- BEGIN TransactionStorage
-def TransactionStorage (sp : Bool) (cell_slice : Frag) : Rd.R := do
-  let (t1, cell_slice) ← TrStoragePhase sp cell_slice
-  pure ((Rd.obj "TransactionStorage" [("storage_ph", t1)]), cell_slice)
--- END TransactionStorage
-
--- BEGIN TransactionTickTock
-def TransactionTickTock (sp : Bool) (cell_slice : Frag) : Rd.R := do
-  let (t1, cell_slice) ← Rd.loadBool cell_slice
-  let (t2, cell_slice) ← TrStoragePhase sp cell_slice
-  let (t3, cell_slice) ← TrComputePhase sp cell_slice
-  let (t4, cell_slice) ← Rd.loadBit cell_slice
-  let (t5, cell_slice) ← (if (Rd.truthy t4) then do
-        let (c6, cell_slice) ← Rd.loadRef cell_slice
-        let r7 := Rd.beginParse c6
-        let (t8, _) ← TrActionPhase (Rd.special c6) r7
-        pure (t8, cell_slice)
-      else pure (Val.unit, cell_slice))
-  let (t9, cell_slice) ← Rd.loadBool cell_slice
-  let (t10, cell_slice) ← Rd.loadBool cell_slice
-  pure ((Rd.obj "TransactionTickTock" [("is_tock", t1), ("storage_ph", t2), ("compute_ph", t3), ("action", t5), ("aborted", t9), ("destroyed", t10)]), cell_slice)
--- END TransactionTickTock
-
--- BEGIN TransactionMergePrepare
-def TransactionMergePrepare (sp : Bool) (cell_slice : Frag) : Rd.R := do
-  let (t1, cell_slice) ← SplitMergeInfo sp cell_slice
-  let (t2, cell_slice) ← TrStoragePhase sp cell_slice
-  let (t3, cell_slice) ← Rd.loadBool cell_slice
-  pure ((Rd.obj "TransactionMergePrepare" [("split_info", t1), ("storage_ph", t2), ("aborted", t3)]), cell_slice)
--- END TransactionMergePrepare
-
--- BEGIN TransactionSplitPrepare
-def TransactionSplitPrepare (sp : Bool) (cell_slice : Frag) : Rd.R := do
-  let (t1, cell_slice) ← SplitMergeInfo sp cell_slice
-  let (t2, cell_slice) ← Rd.loadBit cell_slice
-  let (t3, cell_slice) ← (if (Rd.truthy t2) then do
-        let (t4, cell_slice) ← TrStoragePhase sp cell_slice
-        pure (t4, cell_slice)
-      else pure (Val.unit, cell_slice))
-  let (t5, cell_slice) ← TrComputePhase sp cell_slice
-  let (t6, cell_slice) ← Rd.loadBit cell_slice
-  let (t7, cell_slice) ← (if (Rd.truthy t6) then do
-        let (c8, cell_slice) ← Rd.loadRef cell_slice
-        let r9 := Rd.beginParse c8
-        let (t10, _) ← TrActionPhase (Rd.special c8) r9
-        pure (t10, cell_slice)
-      else pure (Val.unit, cell_slice))
-  let (t11, cell_slice) ← Rd.loadBool cell_slice
-  let (t12, cell_slice) ← Rd.loadBool cell_slice
-  pure ((Rd.obj "TransactionSplitPrepare" [("split_info", t1), ("storage_ph", t3), ("compute_ph", t5), ("action", t7), ("aborted", t11), ("destroyed", t12)]), cell_slice)
--- END TransactionSplitPrepare
-
 -- BEGIN SigPubKey
 def SigPubKey (sp : Bool) (cell_slice : Frag) : Rd.R := do
   let (t1, cell_slice) ← Rd.loadBytes 4 cell_slice
@@ -535,12 +419,12 @@ def ValidatorDescr (sp : Bool) (cell_slice : Frag) : Rd.R := do
   let (t4, cell_slice) ← Rd.loadUint 64 cell_slice
   let t5 := Val.unit
   let t6 := (Rd.str "validator")
-  if (Rd.veq t2 (Rd.bytesLit [115])) then do
-    let t7 := (Rd.str "validator_addr")
-    let (t8, cell_slice) ← Rd.loadBytes 32 cell_slice
-    pure ((Rd.obj "ValidatorDescr" [("type_", t7), ("public_key", t3), ("weight", t4), ("adnl_addr", t8)]), cell_slice)
-  else do
-    pure ((Rd.obj "ValidatorDescr" [("type_", t6), ("public_key", t3), ("weight", t4), ("adnl_addr", t5)]), cell_slice)
+  let (t9, t10, cell_slice) ← (if (Rd.veq t2 (Rd.bytesLit [115])) then do
+        let t7 := (Rd.str "validator_addr")
+        let (t8, cell_slice) ← Rd.loadBytes 32 cell_slice
+        pure (t8, t7, cell_slice)
+      else pure (t5, t6, cell_slice))
+  pure ((Rd.obj "ValidatorDescr" [("type_", t10), ("public_key", t3), ("weight", t4), ("adnl_addr", t9)]), cell_slice)
 -- END ValidatorDescr
 
 -- BEGIN CatchainConfig
@@ -567,6 +451,63 @@ def CatchainConfig (sp : Bool) (cell_slice : Frag) : Rd.R := do
       none
 -- END CatchainConfig
 
+-- BEGIN ConsensusConfig
+def ConsensusConfig (sp : Bool) (cell_slice : Frag) : Rd.R := do
+  let (t1, cell_slice) ← Rd.loadBytes 1 cell_slice
+  let t2 ← Rd.bytesPrefix 1 t1
+  if (!(Rd.veq t2 (Rd.bytesLit [214]) || Rd.veq t2 (Rd.bytesLit [215]) || Rd.veq t2 (Rd.bytesLit [216]) || Rd.veq t2 (Rd.bytesLit [217]))) then none else
+  let t3 := (if Rd.veq t2 (Rd.bytesLit [214]) then (Rd.str "consensus_config") else (if Rd.veq t2 (Rd.bytesLit [215]) then (Rd.str "consensus_config_new") else (if Rd.veq t2 (Rd.bytesLit [216]) then (Rd.str "consensus_config_v3") else (if Rd.veq t2 (Rd.bytesLit [217]) then (Rd.str "consensus_config_v4") else Val.unit))))
+  let t4 := Val.unit
+  let t5 := Val.unit
+  if (!Rd.veq t3 (Rd.str "consensus_config")) then do
+    let (t6, cell_slice) ← Rd.loadUint 7 cell_slice
+    if !(Rd.veq t6 (Val.int 0)) then none else
+    let (t7, cell_slice) ← Rd.loadBool cell_slice
+    let (t8, cell_slice) ← Rd.loadUint 8 cell_slice
+    let b9 ← Rd.vle (Val.int 1) t8
+    if !b9 then none else
+    let (t10, cell_slice) ← Rd.loadUint 32 cell_slice
+    let (t11, cell_slice) ← Rd.loadUint 32 cell_slice
+    let (t12, cell_slice) ← Rd.loadUint 32 cell_slice
+    let (t13, cell_slice) ← Rd.loadUint 32 cell_slice
+    let (t14, cell_slice) ← Rd.loadUint 32 cell_slice
+    let (t15, cell_slice) ← Rd.loadUint 32 cell_slice
+    let (t16, cell_slice) ← Rd.loadUint 32 cell_slice
+    let t17 := Val.unit
+    let t18 := Val.unit
+    let (t20, cell_slice) ← (if (Rd.veq t3 (Rd.str "consensus_config_v3") || Rd.veq t3 (Rd.str "consensus_config_v4")) then do
+          let (t19, cell_slice) ← Rd.loadUint 16 cell_slice
+          pure (t19, cell_slice)
+        else pure (t17, cell_slice))
+    let (t22, cell_slice) ← (if (Rd.veq t3 (Rd.str "consensus_config_v4")) then do
+          let (t21, cell_slice) ← Rd.loadUint 32 cell_slice
+          pure (t21, cell_slice)
+        else pure (t18, cell_slice))
+    pure ((Rd.obj "ConsensusConfig" [("type_", t3), ("flags", t6), ("new_catchain_ids", t7), ("round_candidates", t8), ("next_candidate_delay_ms", t10), ("consensus_timeout_ms", t11), ("fast_attempts", t12), ("attempt_duration", t13), ("catchain_max_deps", t14), ("max_block_bytes", t15), ("max_collated_bytes", t16), ("proto_version", t20), ("catchain_max_blocks_coeff", t22)]), cell_slice)
+  else do
+    let (t23, cell_slice) ← Rd.loadUint 32 cell_slice
+    let b24 ← Rd.vle (Val.int 1) t23
+    if !b24 then none else
+    let (t25, cell_slice) ← Rd.loadUint 32 cell_slice
+    let (t26, cell_slice) ← Rd.loadUint 32 cell_slice
+    let (t27, cell_slice) ← Rd.loadUint 32 cell_slice
+    let (t28, cell_slice) ← Rd.loadUint 32 cell_slice
+    let (t29, cell_slice) ← Rd.loadUint 32 cell_slice
+    let (t30, cell_slice) ← Rd.loadUint 32 cell_slice
+    let (t31, cell_slice) ← Rd.loadUint 32 cell_slice
+    let t32 := Val.unit
+    let t33 := Val.unit
+    let (t35, cell_slice) ← (if (Rd.veq t3 (Rd.str "consensus_config_v3") || Rd.veq t3 (Rd.str "consensus_config_v4")) then do
+          let (t34, cell_slice) ← Rd.loadUint 16 cell_slice
+          pure (t34, cell_slice)
+        else pure (t32, cell_slice))
+    let (t37, cell_slice) ← (if (Rd.veq t3 (Rd.str "consensus_config_v4")) then do
+          let (t36, cell_slice) ← Rd.loadUint 32 cell_slice
+          pure (t36, cell_slice)
+        else pure (t33, cell_slice))
+    pure ((Rd.obj "ConsensusConfig" [("type_", t3), ("flags", t4), ("new_catchain_ids", t5), ("round_candidates", t23), ("next_candidate_delay_ms", t25), ("consensus_timeout_ms", t26), ("fast_attempts", t27), ("attempt_duration", t28), ("catchain_max_deps", t29), ("max_block_bytes", t30), ("max_collated_bytes", t31), ("proto_version", t35), ("catchain_max_blocks_coeff", t37)]), cell_slice)
+-- END ConsensusConfig
+
 /-- the readers with the plain signature, by class name (driver op `tlbsrc`) -/
 def readers : List (String × (Bool → Frag → Rd.R)) := [
   ("HashUpdate", HashUpdate),
@@ -592,16 +533,12 @@ def readers : List (String × (Bool → Frag → Rd.R)) := [
   ("ComputeSkipReason", ComputeSkipReason),
   ("TrStoragePhase", TrStoragePhase),
   ("TrComputePhase", TrComputePhase),
-  ("TrActionPhase", TrActionPhase),
   ("TrBouncePhase", TrBouncePhase),
   ("SplitMergeInfo", SplitMergeInfo),
   ("IntermediateAddress", IntermediateAddress),
-  ("TransactionStorage", TransactionStorage),
-  ("TransactionTickTock", TransactionTickTock),
-  ("TransactionMergePrepare", TransactionMergePrepare),
-  ("TransactionSplitPrepare", TransactionSplitPrepare),
   ("SigPubKey", SigPubKey),
   ("ValidatorDescr", ValidatorDescr),
-  ("CatchainConfig", CatchainConfig)]
+  ("CatchainConfig", CatchainConfig),
+  ("ConsensusConfig", ConsensusConfig)]
 
 end TonVerif.Tlb.Src
